@@ -9,7 +9,7 @@
    (b) [interp]: a small interpreter of such a tree over the model's own
        state ([ctl], [op] lists): every Call event IS the corresponding model
        operation, every `if` is decided by the model condition supplied in
-       source order ([seq_guards], [eof_guards]); a guard also names the
+       source order ([seq_guards]; for the end-of-file pass see [einterp]); a guard also names the
        attributes (and the local `ret`) the source must have read for that
        test (since the last call / test; an assignment is not a read) - extra reads, logging and other harmless edits do not
        matter, a dropped, re-ordered or re-nested test or call does.
@@ -62,23 +62,6 @@ Definition expected_sequence_search : list stm :=
               [ SEv (Call "results_add") ] (*     ops1 ++ [Add RBody (cur k1) v] *)
               [] ]
           [] ] ].
-
-(* _process_sequence_results, calls and tests only *)
-Definition expected_process_sequence_results : list stm :=
-  [ SLoop                                (* m_eof_scan: for every definition *)
-      [ SIf [SExit] [];                  (*   not a sequence definition *)
-        SIf [SExit] [];                  (*   d_started d = false *)
-        SIf [SExit] [];                  (*   has_end = false *)
-        SEv (Call "end_run_empty");      (*   end_empty sh *)
-        SIf                              (*   Some v *)
-          [ SEv (Call "results_add") ]   (*     alist_add idx (cur, (ln+1, REnd, v)) *)
-          [ SIf [] [] ] ];               (*   None: flt ++ [(idx, cur)] *)
-    SIf [SExit] [];                      (* nothing recorded: return *)
-    SLoop [ SLoop                        (* m_export: per sequence id, per result *)
-      [ SIf [ SIf [SExit] [];
-              SIf [ SIf [SExit] [] ] [] ] [];    (* filtered: skip *)
-        SEv (Call "buffer_append");
-        SIf [SEv (Call "flush")] [] ] ] ].
 
 (* ------------------------------------------------------ (b) interpreter *)
 Record ist := {
@@ -251,18 +234,121 @@ Definition run_seq_tree (t : list stm) (sh : shape) (k : ctl) (c : cline)
   | _ => None
   end.
 
-(* the per-definition tests of the first loop of _process_sequence_results *)
-Definition eof_guards (sh : shape) : list guard :=
-  [ (* if not isinstance(s_def, SequenceSearchDef): continue *)
-    ([], fun _ => false);
-    (* if not seq_def.started: continue *)
-    (["started"], fun s => negb (started (i_k s)));
-    (* if seq_def.s_end is None: continue *)
-    (["s_end"], fun _ => negb (has_end sh));
-    (* ret = seq_def.s_end.run(''); if ret: *)
-    (["ret"], has_ret);
-    (* else: if seq_def.id not in filter_section_id: *)
-    (["filter"], fun _ => true) ].
+(* ---- _process_sequence_results, first loop, one definition.
+
+   The tests of this loop are written in many equivalent ways (three
+   `if ..: continue` guards, one merged guard, a nested `if`, either branch
+   order), so they are NOT matched by position.  Every `if` is classified by
+   the attributes it reads (since the last call / test):
+     reads `ret`                 -> decided by "the end pattern matched ''"
+     reads `filter`              -> a membership test on filter_section_id:
+                                    BOTH branches are followed and must give
+                                    the same outcome
+     otherwise a GATE            -> the conjunction of "started" (if it
+        reads `started`) and "has an end" (if it reads `s_end`); the branch
+        that leads on to the run of the end pattern is taken when it holds,
+        the other one (e.g. `continue`) when it does not
+   and the run of the end pattern on '' must come after gates that have read
+   both `started` and `s_end`.  (Whether a test is negated cannot be seen in
+   the skeleton; that is what the differential runs check.) *)
+Fixpoint has_call (f : string) (s : stm) : bool :=
+  let go := fix go (l : list stm) : bool :=
+              match l with [] => false | x :: r => has_call f x || go r end in
+  match s with
+  | SEv (Call g) => String.eqb f g
+  | SIf a b => go a || go b
+  | SLoop b => go b
+  | _ => false
+  end.
+Fixpoint has_call_list (f : string) (l : list stm) : bool :=
+  match l with [] => false | x :: r => has_call f x || has_call_list f r end.
+
+Fixpoint has_exit (s : stm) : bool :=
+  let go := fix go (l : list stm) : bool :=
+              match l with [] => false | x :: r => has_exit x || go r end in
+  match s with
+  | SExit => true
+  | SIf a b => go a || go b
+  | _ => false
+  end.
+Fixpoint has_exit_list (l : list stm) : bool :=
+  match l with [] => false | x :: r => has_exit x || has_exit_list r end.
+
+Definition smem (a : string) (l : list string) : bool :=
+  existsb (String.eqb a) l.
+
+Inductive eres :=
+| EOk (s : ist) (tested : list string) (exited : bool)
+| EErr.
+
+Definition eclear (o : eres) : eres :=
+  match o with
+  | EOk s td ex => EOk (clear_reads s) td ex
+  | EErr => EErr
+  end.
+
+Fixpoint einterp (sh : shape) (s : stm) (st : ist) (td : list string)
+  : list eres :=
+  let go := fix go (l : list stm) (st : ist) (td : list string) : list eres :=
+    match l with
+    | [] => [EOk st td false]
+    | x :: r =>
+        flat_map (fun o => match o with
+                           | EOk st1 td1 false => go r st1 td1
+                           | other => [other]
+                           end) (einterp sh x st td)
+    end in
+  match s with
+  | SEv (Call f) =>
+      if String.eqb f "end_run_empty" &&
+         negb (smem "started" td && smem "s_end" td)
+      then [EErr]            (* the end pattern is run on an untested def *)
+      else match do_ev sh no_match (Call f) st with
+           | Some st' => [EOk st' td false]
+           | None => [EErr]
+           end
+  | SEv e =>
+      match do_ev sh no_match e st with
+      | Some st' => [EOk st' td false]
+      | None => [EErr]
+      end
+  | SExit => [EOk st td true]
+  | SIf a b =>
+      let rd := i_reads st in
+      let st0 := clear_reads st in
+      map eclear
+        (if smem "filter" rd then (go a st0 td ++ go b st0 td)%list
+         else if smem "ret" rd then
+           (if has_ret st then go a st0 td else go b st0 td)
+         else
+           let ok := implb (smem "started" rd) (started (i_k st))
+                     && implb (smem "s_end" rd) (has_end sh) in
+           let td' := (rd ++ td)%list in
+           let pa := has_call_list "end_run_empty" a in
+           let pb := has_call_list "end_run_empty" b in
+           let xa := has_exit_list a in
+           let xb := has_exit_list b in
+           if pa && negb pb then (if ok then go a st0 td' else go b st0 td')
+           else if pb && negb pa
+           then (if ok then go b st0 td' else go a st0 td')
+           else if negb pa && negb pb && xa && negb xb
+           then (if ok then go b st0 td' else go a st0 td')
+           else if negb pa && negb pb && xb && negb xa
+           then (if ok then go a st0 td' else go b st0 td')
+           else [EErr])
+  | _ => [EErr]
+  end.
+
+Fixpoint einterp_list (sh : shape) (l : list stm) (st : ist)
+         (td : list string) : list eres :=
+  match l with
+  | [] => [EOk st td false]
+  | x :: r =>
+      flat_map (fun o => match o with
+                         | EOk st1 td1 false => einterp_list sh r st1 td1
+                         | other => [other]
+                         end) (einterp sh x st td)
+  end.
 
 Definition first_loop_body (t : list stm) : option (list stm) :=
   match filter (fun s => match s with SLoop _ => true | _ => false end) t with
@@ -270,16 +356,17 @@ Definition first_loop_body (t : list stm) : option (list stm) :=
   | _ => None
   end.
 
-(* one definition at end of file: results added, section ids filtered *)
-Definition run_eof_tree (t : list stm) (sh : shape) (k : ctl)
-  : option (list op * list nat) :=
+Definition eout (o : eres) : option (list op * list nat) :=
+  match o with EOk s _ _ => Some (i_ops s, i_flt s) | EErr => None end.
+
+(* one definition at end of file: results added, section ids filtered - one
+   outcome per way through the membership tests on the filter (all of them
+   must be the model's action) *)
+Definition eof_outcomes (t : list stm) (sh : shape) (k : ctl)
+  : list (option (list op * list nat)) :=
   match first_loop_body t with
-  | Some body =>
-      match interp_list sh no_match body (ist0 k) (eof_guards sh) with
-      | IOk s _ _ => Some (i_ops s, i_flt s)
-      | IErr => None
-      end
-  | None => None
+  | Some body => map eout (einterp_list sh body (ist0 k) [])
+  | None => []
   end.
 
 (* what the model does with one definition at end of file (seq_eof and
